@@ -95,6 +95,7 @@ type b64X struct {
 	g     *Gen
 	p     *packages.Package
 	known map[*types.Func]string // translated functions, by object
+	sir   bool                   // stream mode (streamir.go): emit the stream IR of Base/StreamIRBase.lean
 }
 
 // b64Fn is the translation of one function body.
@@ -250,6 +251,9 @@ func (f *b64Fn) run() string {
 		}
 		return true
 	})
+	if f.x.sir {
+		init = append(init, f.clonePrologue()...)
+	}
 	stmts := append(init, f.block(f.fd.Body.List, "    ")...)
 	if len(stmts) == 0 {
 		return "    .skip"
@@ -332,6 +336,11 @@ func (f *b64Fn) expr(e ast.Expr) string {
 			return fmt.Sprintf("(.bool %v)", constant.BoolVal(tv.Value))
 		}
 		return f.unknownE(e, "constant that is neither an integer nor a boolean")
+	}
+	if f.x.sir {
+		if s, ok := f.sirExpr(e); ok {
+			return s
+		}
 	}
 	switch v := e.(type) {
 	case *ast.ParenExpr:
@@ -518,6 +527,8 @@ func (f *b64Fn) callExpr(c *ast.CallExpr) string {
 	if tv, ok := info.Types[c.Fun]; ok && tv.IsType() && len(c.Args) == 1 {
 		to, from := tv.Type, f.typ(c.Args[0])
 		switch {
+		case f.x.sir && !(isIntType(to) && isIntType(from)):
+			return f.unknownE(c, "conversion (stream mode has integer conversions only)")
 		case isNamed(to, f.x.p.PkgPath, "CorruptInputError") && isIntType(from):
 			a := f.expr(c.Args[0])
 			if !fits(from, to) {
@@ -552,7 +563,7 @@ func (f *b64Fn) callExpr(c *ast.CallExpr) string {
 					}
 				}
 			case "make":
-				if len(c.Args) == 2 && isByteSlice(f.typ(c)) {
+				if len(c.Args) == 2 && isByteSlice(f.typ(c)) && !f.x.sir {
 					n := f.expr(c.Args[1])
 					return f.hoist(c, func(k int) string {
 						return fmt.Sprintf("-- %s: %s\n.make %d %s", f.where(c), f.srcLine(c), k, n)
@@ -630,7 +641,7 @@ func (f *b64Fn) zero(t types.Type) (string, bool) {
 		return "(.bool false)", true
 	case isErrorType(t):
 		return ".nilErr", true
-	case isByteArray(t):
+	case isByteArray(t) && !f.x.sir:
 		return fmt.Sprintf("(.zeros %d)", t.Underlying().(*types.Array).Len()), true
 	}
 	return "", false
@@ -651,9 +662,26 @@ func (f *b64Fn) lhs(e ast.Expr) string {
 		}
 	case *ast.IndexExpr:
 		if id, ok := v.X.(*ast.Ident); ok {
-			if lv := f.localVar(id); lv != nil && (isByteSlice(lv.Type()) || isByteArray(lv.Type())) {
+			if lv := f.localVar(id); lv != nil && (isByteSlice(lv.Type()) || (isByteArray(lv.Type()) && !f.x.sir)) {
 				if k, ok := f.slots[lv]; ok {
 					return fmt.Sprintf(".index %d %s", k, f.expr(v.Index))
+				}
+			}
+			return ""
+		}
+		if f.x.sir && (isByteSlice(f.typ(v.X)) || f.arrayField(v.X)) {
+			return fmt.Sprintf(".indexE %s %s", f.base(v.X), f.expr(v.Index))
+		}
+	case *ast.SelectorExpr:
+		if f.x.sir {
+			sel := f.info().Selections[v]
+			if sel != nil && sel.Kind() == types.FieldVal && len(sel.Index()) == 1 && !isByteArray(f.typ(v)) {
+				if _, st, ptr := f.structOf(f.typ(v)); st != nil && !ptr {
+					return ""
+				}
+				// same operand rule as for reading the field
+				if s, ok := f.sirExpr(v); ok && strings.HasPrefix(s, "(.field ") {
+					return strings.TrimSuffix(strings.TrimPrefix(s, "("), ")")
 				}
 			}
 		}
@@ -679,6 +707,11 @@ func (f *b64Fn) assignStmt(v *ast.AssignStmt, ind string) []string {
 		}
 		if len(v.Rhs) == 1 {
 			if call, ok := v.Rhs[0].(*ast.CallExpr); ok {
+				if f.x.sir {
+					if out, ok := f.sirCallStmt(v, ls, call, ind); ok {
+						return out
+					}
+				}
 				if name, recv, ok := f.calledFunc(call); ok {
 					args := f.callArgs(call, recv)
 					return f.flush(ind, fmt.Sprintf("%s%s.call [%s] %s [%s]", c, ind, strings.Join(ls, ", "), strLit(name), strings.Join(args, ", ")))
@@ -766,6 +799,11 @@ func (f *b64Fn) stmt(s ast.Stmt, ind string) []string {
 		if !ok {
 			return []string{ind + f.unknownS(v, "expression statement")}
 		}
+		if f.x.sir {
+			if out, ok := f.sirCallStmt(v, nil, call, ind); ok {
+				return out
+			}
+		}
 		if name, recv, ok := f.calledFunc(call); ok {
 			args := f.callArgs(call, recv)
 			// results, if any, are discarded
@@ -777,6 +815,9 @@ func (f *b64Fn) stmt(s ast.Stmt, ind string) []string {
 				}
 			}
 			return f.flush(ind, fmt.Sprintf("%s%s.call [%s] %s [%s]", f.comment(v, ind), ind, strings.Join(ls, ", "), strLit(name), strings.Join(args, ", ")))
+		}
+		if f.x.sir {
+			return []string{ind + f.unknownS(v, "call statement")}
 		}
 		switch f.stdMethod(call) {
 		case "encoding/binary.BigEndian.PutUint64":
@@ -805,6 +846,10 @@ func (f *b64Fn) stmt(s ast.Stmt, ind string) []string {
 		return append(out, fmt.Sprintf("%s%s.ite %s\n%s\n%s", f.comment1(v, "if "+f.srcLine(v.Cond), ind), ind, cond, th, el))
 	case *ast.ForStmt:
 		return f.forStmt(v, ind)
+	case *ast.RangeStmt:
+		if f.x.sir {
+			return f.rangeStmt(v, ind)
+		}
 	case *ast.SwitchStmt:
 		return f.switchStmt(v, ind)
 	case *ast.ReturnStmt:
@@ -890,6 +935,9 @@ func (f *b64Fn) forStmt(v *ast.ForStmt, ind string) []string {
 			}
 			return true
 		})
+	}
+	if f.x.sir && f.hasIfaceCall(v.Body) {
+		fuel = fmt.Sprintf("(.bin .add %s .extPending)", fuel)
 	}
 	post := ind + "  .skip"
 	if v.Post != nil {
